@@ -36,9 +36,23 @@ def has_sym(x):
     return False
 
 
+def _real_rec_dtype(x):
+    if getattr(x.dtype, "real", None) is not None:
+        return real_np.dtype(x.dtype.real)
+    return real_np.dtype([(n, x.dtype.field(n).str if x.dtype.field(n).kind in "biuf" else "O") for n in x.names])
+
+
 def to_real(x):
     """model array without symbolic content -> real numpy value"""
     if isinstance(x, nd.RecArray):
+        dt = _real_rec_dtype(x)
+        out = real_np.zeros(x.shape[0], dtype=dt)
+        for n in x.names:
+            out[n] = x.cols[n].tolist()
+        return out
+    if isinstance(x, nd.RecScalar):
+        return real_np.array(tuple(x.vals), dtype=_real_rec_dtype(x))
+    if False:
         dt = real_np.dtype([(n, x.dtype.field(n).str if x.dtype.field(n).kind in "biuf" else "O") for n in x.names])
         out = real_np.zeros(x.shape[0], dtype=dt)
         for n in x.names:
@@ -104,6 +118,12 @@ class PAttrs:
             return
         self._s.pop(self._p + key, None)
         value = to_real(value)
+        if isinstance(dtype, nd.RecDtype):
+            dtype = None
+        elif isinstance(dtype, nd.dtype):
+            dtype = dtype.name if dtype.kind in "biuf" else None
+        elif isinstance(dtype, type) and hasattr(dtype, "_dt"):
+            dtype = dtype._dt.name
         if dtype is not None:
             self._r.create(key, value, dtype=dtype, **kw)
         else:
@@ -259,6 +279,8 @@ class PNode:
         args = {}
         if shape is not None:
             args["shape"] = shape
+        if isinstance(dtype, nd.RecDtype):
+            dtype = dtype.real
         if dtype is not None:
             args["dtype"] = dtype if not isinstance(dtype, (nd.dtype,)) else dtype.name
         return self._r.create_dataset(name, data=data, **args, **kw)
